@@ -169,7 +169,7 @@ def materialise(bench, k, m, c, rng):
 
 
 def ncomp_value(c, d):
-  return {'na': None, 'none': None, 'one': 1, 'd': d, 'zero': 0, 'dplus1': d + 1}[c['ncomp']]
+  return {'na': None, 'none': None, 'one': 1, 'd': d, 'zero': 0, 'dplus1': d + 1, 'minus1': -1, 'minusd': -d}[c['ncomp']]
 
 
 def invoke(bench, k, m, c, arr, labels, fresh_opts=None):
@@ -258,7 +258,7 @@ def signature_of(recipe, tr, clause, pos):
     dev = sorted([f + '=' + str(c[f]) for f in default if c[f] != default[f]] +
                  ['lab=' + c['lab']] * (c['lab'] not in ('na', 'ok')) +
                  ['lenrel=' + c['lenrel']] * (c['lenrel'] not in ('na', 'eq')) +
-                 ['ncomp=' + c['ncomp']] * (c['ncomp'] in ('zero', 'dplus1')) +
+                 ['ncomp=' + c['ncomp']] * (c['ncomp'] in ('zero', 'dplus1', 'minus1', 'minusd')) +
                  ['ndim=' + str(c['ndim'])])
   return {'method': m, 'deviation': dev, 'outcome': e.get('outcome'), 'tsize': k.get('tsize')}
 
